@@ -340,6 +340,20 @@ def transition(
         Tuple[PureSnapshot, List[ActionDefinition]]: The resulting snapshot
         and the actions that would have run.
     """
+    # 🏁 A machine that has completed or failed ignores further events, exactly
+    #    as the interpreters do; re-running the probe would revive it.
+    if snapshot.status in ("done", "error"):
+        return (
+            PureSnapshot(
+                state_ids=set(snapshot.state_ids),
+                configuration=set(snapshot.configuration),
+                context=copy.deepcopy(snapshot.context),
+                status=snapshot.status,
+                output=snapshot.output,
+            ),
+            [],
+        )
+
     probe, recorded = _build_probe(machine, snapshot, None)
     probe.status = "running"
 
